@@ -8,6 +8,7 @@ package docker
 // released); the client talks to tcp://address:port with the scanner's scheme and HTTP client; a record iff the
 // Info request succeeded; the ServerVersion request is best effort.
 //@ func (*Scanner).Scan
+//@   sig s, ctx, r
 //@   props C10 C08 C01 C02 C14
 //@   observe context.WithTimeout, String, fmt.Sprintf, WithHTTPClient, WithScheme, WithHost, NewClientWithOpts, Info, ServerVersion, cancel
 //@   entry row noclient: [call context.WithTimeout(ctx, s.dataTimeout) as (c2, cf) ; call String(r.DstIP) as (ips) ; call fmt.Sprintf("tcp://%s:%d", bind_a) as (host) ;
@@ -27,30 +28,35 @@ package docker
 
 // C02 / C10: private transport without proxy (see pkg/scan/elastic); defaults first, then the options in order
 //@ func WithDataTimeout$1
+//@   sig s
 //@   props C10 C08 C01 C02 C14
 //@   modifies s.dataTimeout
 //@   ensures s.dataTimeout == timeout
 //@ func NewScanner
+//@   sig proto, opts
 //@   props C02 C10 C08 C01 C14
-//@   observe o
+//@   observe ScannerOption
 //@   entry row init:  [] when s.proto == proto && s.client.Timeout == 0 && isptr(s.client.Transport, http.Transport) && fresh(asptr(s.client.Transport, http.Transport))
 //@                       && asptr(s.client.Transport, http.Transport).Proxy == nil && asptr(s.client.Transport, http.Transport).DialContext == nil && asptr(s.client.Transport, http.Transport).DisableKeepAlives -> loop 0
-//@   loop 0 row apply: [call o(s)] -> continue
+//@   loop 0 row apply: [call ScannerOption(s)] -> continue
 //@   loop 0 row done:  [] when ret == s -> exit
 
 // C14: the JSON form of a result is exactly what encoding/json produces for a copy of the record (all tagged fields,
 // library escaping), with no post-processing
 //@ func (*ScanResult).MarshalJSON
+//@   sig r
 //@   props C14
 //@   observe json.Marshal
 //@   entry row marshal: [call json.Marshal(bind_x) as (b, e)] when ret0 == b && ret1 == e -> exit
 
 // plain-text form of a record: printing never panics, whatever the scanned host put into the record (C10 C08)
 //@ func (*ScanResult).String
+//@   sig r
 //@   props C10 C08
 
 // option constructors: each returns its own option closure over exactly its argument (verified here, inlined at call sites)
 //@ func WithDataTimeout
+//@   sig timeout
 //@   inline
 //@   props C10 C08 C01 C02 C14
 //@   ensures closureof(ret, "WithDataTimeout$1") && capt(ret, "timeout") == timeout
